@@ -1418,6 +1418,19 @@ def _wire(draw, q, kind, marker):
         return reply()
     if kind == "big":
         return reply(big=True)
+    if kind == "huge":
+        # a frame whose length needs the top bit of the 2-octet prefix (and the largest one): one TXT
+        # record sized so that the whole message is exactly L octets
+        L = draw(st.sampled_from([32767, 32768, 32769, 40000, 65535, 65535]))
+        base = reply(answers=[])
+        room = L - len(base) - 12  # owner pointer (2) + type/class/ttl/rdlength (10)
+        rd = bytearray()
+        while room - len(rd) > 256:
+            rd += bytes([255]) + bytes([66]) * 255
+        r = room - len(rd)
+        if r >= 1:
+            rd += bytes([r - 1]) + bytes([67]) * (r - 1)
+        return reply(answers=[([("ptr", 12)], NM.T_TXT, NM.C_IN, ttl, bytes(rd))])
     if kind == "case_variant":
         mode = draw(st.integers(0, 2))
         if mode == 0:
@@ -1632,7 +1645,7 @@ def udp_cases(draw):
 # ---------------------------------------------------------------------------
 # generators: streams
 
-_FRAME_KINDS_OK = ["genuine", "genuine", "genuine", "big", "big", "case_variant", "tc_genuine", "special_empty_q"]
+_FRAME_KINDS_OK = ["genuine", "genuine", "genuine", "big", "big", "case_variant", "tc_genuine", "special_empty_q", "huge"]
 _FRAME_KINDS_BAD = [
     "wrong_id", "qr_clear", "other_name", "other_type", "other_opcode", "garbage_short",
     "garbage_hdr", "trunc_mid_q", "trunc_mid_an", "trailing", "tsig_signed", "empty_datagram",
@@ -1643,13 +1656,15 @@ _FRAME_KINDS_BAD = [
 @st.composite
 def _recv_events(draw, slen, timeout):
     mode = draw(st.sampled_from(["whole", "ones", "random", "random", "random", "prefix", "prefix"]))
+    if slen > 5000 and mode == "ones":
+        mode = "random"
     ev = []
     if mode == "ones":
         ev = [["data", 1] for _ in range(slen)]
     elif mode == "random":
         total = 0
         while total < slen and len(ev) < 400:
-            n = draw(st.sampled_from([1, 1, 2, 3, 5, 8, 13, 40, 300]))
+            n = draw(st.sampled_from([1, 1, 2, 3, 5, 8, 13, 40, 300] + ([4000, 20000, 32767] if slen > 5000 else [])))
             ev.append(["data", n])
             total += n
     elif mode == "prefix":
@@ -1881,7 +1896,7 @@ def _stream_require():
            "zero-length-frame": 50, "frame>255": 200, "pipelined>=2": 200,
            "final:done": 1000, "final:EOFError": 1500, "final:Timeout": 800, "final:ParseError": 200,
            "final:BadResponse": 60, "it=0": 2000, "it=1": 2000, "orr=0": 2000, "orr=1": 2000}
-    for k in ("genuine", "big", "case_variant", "tc_genuine", "special_empty_q"):
+    for k in ("genuine", "big", "case_variant", "tc_genuine", "special_empty_q", "huge"):
         req["frame-read:" + k] = 80
     for k in ("garbage_short", "garbage_hdr", "trunc_mid_q", "trunc_mid_an", "trailing", "tsig_signed",
               "empty_datagram"):
